@@ -196,6 +196,9 @@ func (e *atomEnv) eval(x ast.Expr, val map[string]bool, depth int) (bool, bool) 
 	if b, isC := boolConst(info, x); isC {
 		return b, true
 	}
+	if name, neg, ok := e.named(x); ok {
+		return val[name] != neg, true
+	}
 	switch v := x.(type) {
 	case *ast.UnaryExpr:
 		if v.Op == token.NOT {
@@ -227,9 +230,6 @@ func (e *atomEnv) eval(x ast.Expr, val map[string]bool, depth int) (bool, bool) 
 				}
 			}
 		}
-	}
-	if name, neg, ok := e.named(x); ok {
-		return val[name] != neg, true
 	}
 	return false, false
 }
